@@ -198,9 +198,9 @@ func (s *Station) GetOutbound(fw ...fbb.Address) []*fbb.Message {
 			mids = append(mids, m.MID())
 		}
 		for _, a := range fw {
-			fws = append(fws, a.String())
+			fws = append(fws, strings.ToUpper(a.String()))
 		}
-		s.rec.Add(rec.Event{"op": "Offer", "s": s.Name, "ms": mids, "fw": fws})
+		s.rec.Add(rec.Event{"op": "Offer", "s": s.Name, "ms": mids, "fw": fws, "lib": true})
 		return out
 	}
 	s.mu.Lock()
@@ -220,9 +220,9 @@ func (s *Station) GetOutbound(fw ...fbb.Address) []*fbb.Message {
 	s.mu.Unlock()
 	fws := []string{}
 	for _, a := range fw {
-		fws = append(fws, a.String())
+		fws = append(fws, strings.ToUpper(a.String()))
 	}
-	s.rec.Add(rec.Event{"op": "Offer", "s": s.Name, "ms": mids, "fw": fws})
+	s.rec.Add(rec.Event{"op": "Offer", "s": s.Name, "ms": mids, "fw": fws, "lib": true})
 	return out
 }
 
